@@ -1154,6 +1154,187 @@ theorem euler_roundtrip_gimbal (sqrt : K → K) (small : K → Bool) (m : Mat K)
 
 end toeuler
 
+/-! ## twovec (matrix3.py:59-133) -/
+section twovecRing
+variable {K : Type} [CommRing K]
+
+/-- the row assembly of `twovec`: a unit vector u1, a unit vector u3 orthogonal to it and their cross product
+    (taken in the order the code's branch uses) placed in rows axis1, axis2 (u2), axis3 form a rotation
+    matrix — orthonormal with determinant +1 — for all six admissible axis pairs; the buffer is overwritten -/
+theorem twovec_rows_rotation (u1 u2 u3 : Nat → K) (m0 : Mat K)
+    (e1 : u1 0 * u1 0 + u1 1 * u1 1 + u1 2 * u1 2 = 1) (e3 : u3 0 * u3 0 + u3 1 * u3 1 + u3 2 * u3 2 = 1)
+    (e13 : u1 0 * u3 0 + u1 1 * u3 1 + u1 2 * u3 2 = 0)
+    (a1 a2 : Nat) (h1 : a1 < 3) (h2 : a2 < 3) (hne : a1 ≠ a2)
+    (hu2 : ∀ i, i < 3 → u2 i = if (3 + a2 - a1) % 3 = 1 then crossV u3 u1 i else crossV u1 u3 i) :
+    Orthonormal3 (twovecAssemble a1 a2 u1 u2 u3 m0) ∧ det3 (twovecAssemble a1 a2 u1 u2 u3 m0) = 1 := by
+  have C : (u3 2 ^ 2 + u3 1 ^ 2 + u3 0 ^ 2) * (u1 0 * u1 0 + u1 1 * u1 1 + u1 2 * u1 2 - 1)
+      + (u3 0 * u3 0 + u3 1 * u3 1 + u3 2 * u3 2 - 1)
+      + (-u1 2 * u3 2 - u1 1 * u3 1 - u1 0 * u3 0) * (u1 0 * u3 0 + u1 1 * u3 1 + u1 2 * u3 2 - 0) = 0 := by
+    rw [e1, e3, e13]; ring
+  have q0 := hu2 0 (by omega); have q1 := hu2 1 (by omega); have q2 := hu2 2 (by omega)
+  match a1, h1, a2, h2 with
+  | 0, _, 1, _ | 1, _, 2, _ | 2, _, 0, _ | 0, _, 2, _ | 1, _, 0, _ | 2, _, 1, _ =>
+    simp [crossV] at q0 q1 q2
+    constructor
+    · refine forall_lt3_2 ⟨?_, ?_, ?_, ?_, ?_, ?_, ?_, ?_, ?_⟩ <;>
+        simp [twovecAssemble, Mat.mul, Mat.T, Mat.ident, sumRange, q0, q1, q2] <;>
+        first | ring1 | linear_combination e1 | linear_combination e3 | linear_combination e13 | linear_combination C
+    · simp [twovecAssemble, det3, q0, q1, q2]
+      first | linear_combination C | linear_combination -C
+  | 0, _, 0, _ | 1, _, 1, _ | 2, _, 2, _ => exact absurd rfl hne
+
+end twovecRing
+section twovecField
+variable {K : Type} [Field K] [DecidableEq K]
+
+theorem vdot3 (a b : Nat → K) : vdot 3 a b = a 0 * b 0 + a 1 * b 1 + a 2 * b 2 := by
+  simp [vdot, sumRange]
+
+/-- `ucross`: wherever it is unmasked the result is a unit vector orthogonal to both operands, equal to the
+    cross product divided by its norm; it is masked iff an operand is masked or the cross product has zero norm -/
+theorem ucross_spec (sqrt : K → K) (a b : VecE K)
+    (hsq : ∀ v : Nat → K, sqrt (vdot 3 v v) * sqrt (vdot 3 v v) = vdot 3 v v) :
+    (ucross sqrt a b).m = (a.m || b.m || decide (sqrt (vdot 3 (crossV a.get b.get) (crossV a.get b.get)) = 0)) ∧
+    (sqrt (vdot 3 (crossV a.get b.get) (crossV a.get b.get)) ≠ 0 →
+      (∀ i, (ucross sqrt a b).get i = crossV a.get b.get i / sqrt (vdot 3 (crossV a.get b.get) (crossV a.get b.get))) ∧
+      vdot 3 (ucross sqrt a b).get (ucross sqrt a b).get = 1 ∧
+      vdot 3 (ucross sqrt a b).get a.get = 0 ∧ vdot 3 (ucross sqrt a b).get b.get = 0) := by
+  constructor
+  · simp only [ucross, unit, divByScalar]
+    cases a.m <;> cases b.m <;> simp
+  · intro hz
+    have hn := hsq (crossV a.get b.get)
+    have U := (unit_norm_sq ⟨3, crossV a.get b.get, a.m || b.m⟩ _ hn).1 hz
+    refine ⟨fun i => by simp [ucross, unit, divByScalar, hz], U.1, ?_, ?_⟩
+    · simp only [ucross, unit, divByScalar, hz, decide_false, Bool.false_eq_true, ↓reduceIte]
+      rw [vdot_div_left]
+      have : vdot 3 (crossV a.get b.get) a.get = 0 := by simp [vdot, sumRange, crossV]; ring
+      rw [this, zero_div]
+    · simp only [ucross, unit, divByScalar, hz, decide_false, Bool.false_eq_true, ↓reduceIte]
+      rw [vdot_div_left]
+      have : vdot 3 (crossV a.get b.get) b.get = 0 := by simp [vdot, sumRange, crossV]; ring
+      rw [this, zero_div]
+
+/-- Lagrange: the cross product of two orthogonal unit vectors is a unit vector -/
+theorem cross_unit_norm (u w : Nat → K) (eu : vdot 3 u u = 1) (ew : vdot 3 w w = 1) (euw : vdot 3 u w = 0) :
+    vdot 3 (crossV u w) (crossV u w) = 1 := by
+  rw [vdot3] at eu ew euw ⊢
+  simp only [crossV]
+  linear_combination (w 0 * w 0 + w 1 * w 1 + w 2 * w 2) * eu + ew - (u 0 * w 0 + u 1 * w 1 + u 2 * w 2) * euw
+
+/-- **twovec**: wherever the result is unmasked it is a rotation matrix (orthonormal, determinant +1), for all
+    six admissible axis pairs, with `sqrt` any function satisfying `sqrt(‖v‖²)² = ‖v‖²` and `sqrt 1 = 1`.
+    (Degenerate inputs — zero or parallel vectors — are masked: `ucross_spec`, `unit_norm_sq`.) -/
+theorem twovec_rotation (sqrt : K → K)
+    (hsq : ∀ v : Nat → K, sqrt (vdot 3 v v) * sqrt (vdot 3 v v) = vdot 3 v v) (h1 : sqrt 1 = 1)
+    (v1 v2 : VecE K) (a1 a2 : Nat) (l1 : a1 < 3) (l2 : a2 < 3) (hne : a1 ≠ a2) (m0 : Mat K)
+    (hm : (twovec sqrt v1 v2 a1 a2 m0).2 = false) :
+    Orthonormal3 (twovec sqrt v1 v2 a1 a2 m0).1 ∧ det3 (twovec sqrt v1 v2 a1 a2 m0).1 = 1 := by
+  have U1 := unit_norm_sq ⟨3, v1.get, v1.m⟩ (sqrt (vdot 3 v1.get v1.get)) (hsq v1.get)
+  have one : (1 : K) ≠ 0 := one_ne_zero
+  unfold twovec at hm ⊢
+  by_cases hb : (3 + a2 - a1) % 3 = 1
+  · simp only [hb, ↓reduceIte, Bool.or_eq_false_iff] at hm ⊢
+    obtain ⟨⟨⟨m1, _⟩, m2⟩, m3⟩ := hm
+    set u1 := unit v1 (sqrt (vdot 3 v1.get v1.get)) with hu1
+    have n1 : sqrt (vdot 3 v1.get v1.get) ≠ 0 := by
+      intro e; have := U1.2 e; simp only [unit, divByScalar] at this m1 hu1; rw [hu1] at m1; simp_all [unit, divByScalar]
+    have e1 : vdot 3 u1.get u1.get = 1 := by
+      have := (U1.1 n1).1; simpa [hu1, unit, divByScalar] using this
+    obtain ⟨S3m, S3⟩ := ucross_spec sqrt u1 v2 hsq
+    have n3 : sqrt (vdot 3 (crossV u1.get v2.get) (crossV u1.get v2.get)) ≠ 0 := by
+      intro e; rw [S3m, e] at m3; simp at m3
+    obtain ⟨_, e3, e31, _⟩ := S3 n3
+    set u3 := ucross sqrt u1 v2
+    have e13 : vdot 3 u1.get u3.get = 0 := by rw [vdot3] at e31 ⊢; linear_combination e31
+    obtain ⟨_, S2⟩ := ucross_spec sqrt u3 u1 hsq
+    have c2 := cross_unit_norm u3.get u1.get e3 e1 e31
+    have n2 : sqrt (vdot 3 (crossV u3.get u1.get) (crossV u3.get u1.get)) = 1 := by rw [c2, h1]
+    obtain ⟨g2, _⟩ := S2 (by rw [n2]; exact one)
+    rw [vdot3] at e1 e3 e13
+    exact twovec_rows_rotation u1.get _ u3.get m0 e1 e3 e13 a1 a2 l1 l2 hne
+      (fun i _ => by rw [g2 i, n2, div_one, if_pos hb])
+  · simp only [hb, ↓reduceIte, Bool.or_eq_false_iff] at hm ⊢
+    obtain ⟨⟨⟨m1, _⟩, m2⟩, m3⟩ := hm
+    set u1 := unit v1 (sqrt (vdot 3 v1.get v1.get)) with hu1
+    have n1 : sqrt (vdot 3 v1.get v1.get) ≠ 0 := by
+      intro e; have := U1.2 e; simp only [unit, divByScalar] at this m1 hu1; rw [hu1] at m1; simp_all [unit, divByScalar]
+    have e1 : vdot 3 u1.get u1.get = 1 := by
+      have := (U1.1 n1).1; simpa [hu1, unit, divByScalar] using this
+    obtain ⟨S3m, S3⟩ := ucross_spec sqrt v2 u1 hsq
+    have n3 : sqrt (vdot 3 (crossV v2.get u1.get) (crossV v2.get u1.get)) ≠ 0 := by
+      intro e; rw [S3m, e] at m3; simp at m3
+    obtain ⟨_, e3, _, e31⟩ := S3 n3
+    set u3 := ucross sqrt v2 u1
+    have e13 : vdot 3 u1.get u3.get = 0 := by rw [vdot3] at e31 ⊢; linear_combination e31
+    obtain ⟨_, S2⟩ := ucross_spec sqrt u1 u3 hsq
+    have c2 := cross_unit_norm u1.get u3.get e1 e3 e13
+    have n2 : sqrt (vdot 3 (crossV u1.get u3.get) (crossV u1.get u3.get)) = 1 := by rw [c2, h1]
+    obtain ⟨g2, _⟩ := S2 (by rw [n2]; exact one)
+    rw [vdot3] at e1 e3 e13
+    exact twovec_rows_rotation u1.get _ u3.get m0 e1 e3 e13 a1 a2 l1 l2 hne
+      (fun i _ => by rw [g2 i, n2, div_one, if_neg hb])
+
+end twovecField
+
+/-! ## pole_rotation and from_rotation -/
+section poleRing
+variable {K : Type} [CommRing K]
+
+/-- `pole_rotation(ra, dec)` is a rotation matrix: orthonormal with determinant +1, from the two s²+c² = 1 -/
+theorem pole_rotation_rotation (ra dec : SC K) (hr : ra.s * ra.s + ra.c * ra.c = 1)
+    (hd : dec.s * dec.s + dec.c * dec.c = 1) :
+    Orthonormal3 (poleRot ra dec) ∧ det3 (poleRot ra dec) = 1 := by
+  constructor
+  · refine forall_lt3_2 ⟨?_, ?_, ?_, ?_, ?_, ?_, ?_, ?_, ?_⟩ <;>
+      simp [poleRot, Mat.mul, Mat.T, Mat.ident, sumRange] <;>
+      first | ring1 | linear_combination (-dec.s * dec.c) * hr | linear_combination hr | linear_combination (dec.c^2) * hr + hd | linear_combination (dec.s^2) * hr + hd
+  · simp [poleRot, det3]
+    linear_combination (dec.s * dec.s + dec.c * dec.c) * hr + hd
+
+end poleRing
+
+section fromRot
+variable {K : Type} [Field K] [DecidableEq K]
+
+/-- **Quaternion.from_rotation (Rodrigues)**: for a non-zero axis (nrm² = ‖v‖² ≠ 0) and s² + c² = 1 of the half
+    angle, the quaternion is a unit quaternion, nothing is masked beyond the operands, its rotation matrix is
+    orthonormal with determinant +1, fixes the axis (M v = v) and has trace 1 + 2·cos(angle) with
+    cos(angle) = c² − s²; a zero axis is masked -/
+theorem from_rotation_spec (half : SC K) (am : Bool) (v : VecE K) (nrm : K)
+    (hh : half.s * half.s + half.c * half.c = 1) (hn : nrm * nrm = vdot 3 v.get v.get) :
+    (nrm = 0 → (fromRotation half am v nrm).2 = true) ∧
+    (nrm ≠ 0 →
+      (fromRotation half am v nrm).2 = (am || v.m) ∧
+      qNormSq (fromRotation half am v nrm).1 = 1 ∧
+      Orthonormal3 (toMatRef (fromRotation half am v nrm).1) ∧ det3 (toMatRef (fromRotation half am v nrm).1) = 1 ∧
+      (∀ r, r < 3 → Mat.app 3 (toMatRef (fromRotation half am v nrm).1) v.get r = v.get r) ∧
+      toMatRef (fromRotation half am v nrm).1 0 0 + toMatRef (fromRotation half am v nrm).1 1 1
+        + toMatRef (fromRotation half am v nrm).1 2 2 = 1 + 2 * (half.c * half.c - half.s * half.s)) := by
+  constructor
+  · intro hz; simp [fromRotation, hz]
+  · intro hz
+    rw [vdot3] at hn
+    have hN : qNormSq (fromRotation half am v nrm).1 = 1 := by
+      simp only [fromRotation, hz, decide_false, Bool.false_eq_true, ↓reduceIte, fromParts, qNormSq_eq]
+      field_simp
+      linear_combination (nrm * nrm) * hh - (half.s * half.s) * hn
+    have one : (1 : K) ≠ 0 := one_ne_zero
+    refine ⟨?_, hN, toMatRef_orthonormal _ (by rw [hN]; exact one), toMatRef_det _ (by rw [hN]; exact one), ?_, ?_⟩
+    · simp only [fromRotation, hz, decide_false]; cases am <;> cases v.m <;> rfl
+    · unfold toMatRef
+      rw [hN]
+      simp only [fromRotation, hz, decide_false, Bool.false_eq_true, ↓reduceIte, fromParts]
+      refine forall_lt3 ?_ ?_ ?_ <;> simp only [Mat.app, sumRange] <;> field_simp <;>
+        first | ring1 | linear_combination (2 * half.s * half.s * v.get 0) * hn | linear_combination (2 * half.s * half.s * v.get 1) * hn | linear_combination (2 * half.s * half.s * v.get 2) * hn | skip
+    · unfold toMatRef
+      rw [hN]
+      simp only [fromRotation, hz, decide_false, Bool.false_eq_true, ↓reduceIte, fromParts]
+      field_simp
+      linear_combination (-2 * (nrm * nrm)) * hh + (4 * half.s * half.s) * hn
+
+end fromRot
+
 /-! ## masks of the operands carry into every result; leading shapes broadcast -/
 section lifting
 variable {K : Type}
